@@ -500,12 +500,15 @@ func record(schemasPath, tracePath, resultsPath string, n int) {
 }
 
 func main() {
-	initConstants()
-	if err := selfTest(); err != nil {
-		vh.Fatal(err)
-	}
 	if len(os.Args) < 2 {
-		vh.Fatal("usage: special replay|record|selftest ...")
+		vh.Fatal("usage: special replay|record|pure|selftest ...")
+	}
+	if os.Args[1] != "purechild" {
+		// (a pure child only converts rational arguments; it needs neither the constants nor the self-test)
+		initConstants()
+		if err := selfTest(); err != nil {
+			vh.Fatal(err)
+		}
 	}
 	switch os.Args[1] {
 	case "selftest":
@@ -521,6 +524,19 @@ func main() {
 		}
 		n, _ := strconv.Atoi(os.Args[5])
 		record(os.Args[2], os.Args[3], os.Args[4], n)
+	case "pure":
+		if len(os.Args) != 6 {
+			vh.Fatal("usage: special pure cases results runs goroutines")
+		}
+		runs, _ := strconv.Atoi(os.Args[4])
+		g, _ := strconv.Atoi(os.Args[5])
+		pure(os.Args[2], os.Args[3], runs, g)
+	case "purechild":
+		if len(os.Args) != 6 {
+			vh.Fatal("usage: special purechild cases family mode goroutines")
+		}
+		g, _ := strconv.Atoi(os.Args[5])
+		pureChild(os.Args[2], os.Args[3], os.Args[4], g)
 	default:
 		vh.Fatal("unknown subcommand", os.Args[1])
 	}
